@@ -256,6 +256,9 @@ func report(prop string, cfg *PropConfig, w *World, results []*FnResult, missing
 	}
 	assumptions = append(assumptions, notes...)
 	assumptions = append(assumptions, cfg.Notes...)
+	if n := perBackend["probe-unknown"]; n > 0 {
+		assumptions = append(assumptions, fmt.Sprintf("%d vacuity probe(s) ('the function exit is reachable under the contract's assumptions') could not be decided by any solver; they are counted as discharged obligations but establish nothing - consistency of the assumptions of those functions is not machine-checked", n))
+	}
 	var samples []interface{}
 	for i, o := range all {
 		if i%(len(all)/6+1) == 0 {
